@@ -6,9 +6,12 @@ pub mod c01;
 pub mod c02;
 pub mod c04;
 pub mod c05;
+pub mod c06;
 pub mod c08;
 pub mod c09;
 pub mod c10;
+pub mod c13;
+pub mod c14;
 pub mod c18;
 pub mod c19;
 
@@ -46,9 +49,12 @@ registry! {
     "C02" => c02,
     "C04" => c04,
     "C05" => c05,
+    "C06" => c06,
     "C08" => c08,
     "C09" => c09,
     "C10" => c10,
+    "C13" => c13,
+    "C14" => c14,
     "C18" => c18,
     "C19" => c19,
 }
